@@ -72,9 +72,8 @@ structure Rpm where
   release : List Char
   deriving Repr, DecidableEq
 
-/-- `unicode.IsSpace` on ASCII. -/
-def isSpace (c : Char) : Bool :=
-  c = '\t' || c = '\n' || c = '\x0b' || c = '\x0c' || c = '\r' || c = ' '
+/-- `unicode.IsSpace` (`strings.TrimLeftFunc(epoch, unicode.IsSpace)`). -/
+def isSpace (c : Char) : Bool := uniIsSpace c
 
 def dropSpace : List Char → List Char
   | [] => []
